@@ -77,6 +77,36 @@ func main() {
 			run.Count("directed:far-leave")
 			run.Case(hlib.F("far-leave-%d-%v", d, ids))
 		}
+		// directed case: a member's predecessor pointer names a LIVE member that is farther away than its true
+		// predecessor (a state graceful churn reaches when a joiner was handed a departed predecessor and the next
+		// node learnt a farther one first); the true predecessor's stabilize/Notify must displace it
+		for d := 0; d < 3; d++ {
+			n := 4 + rng.Intn(4)
+			s := ringh.NewSession(run, rng)
+			members := s.BuildRing(ringh.AdversarialIDs(rng, n))
+			if len(members) < 4 {
+				continue
+			}
+			s.Repair(members, 12)
+			sorted := append([]uint64{}, members...)
+			for i := range sorted {
+				for j := i + 1; j < len(sorted); j++ {
+					if sorted[j] < sorted[i] {
+						sorted[i], sorted[j] = sorted[j], sorted[i]
+					}
+				}
+			}
+			i := rng.Intn(len(sorted))
+			victim := sorted[i]
+			far := sorted[(i+len(sorted)-2-rng.Intn(len(sorted)-3))%len(sorted)]
+			if far != victim {
+				s.Do("setpred", ringh.U(victim), ringh.U(far))
+				s.Repair(members, 12)
+				s.Quiet()
+				run.Count("directed:farther-live-predecessor")
+			}
+			run.Case(hlib.F("far-pred-%v-%d-%d", members, victim, far))
+		}
 		for c := 0; c < cases; c++ {
 			n := 2 + rng.Intn(maxN-1)
 			s := ringh.NewSession(run, rng)
